@@ -4,6 +4,7 @@ import HecsModel.Spec.World
 import HecsModel.Model.QueryJudge
 import HecsModel.Model.Prepared
 import HecsModel.Model.Tracker
+import HecsModel.Model.SerdeJudge
 /-
   Judge for engine `world`: replays a trace line on the model and renders the model's answer in the
   harness' canonical format.  The comparison itself is a string equality done by the driver.
@@ -220,6 +221,50 @@ def specLine (ss : Specs) (lhs rhs : String) : Except String Specs :=
               .error s!"archetypes_generation {g} was returned for two different sets of archetypes"
             else .ok (setS ss n { s with gens := if s.gens.any (fun p => p.1 == g) then s.gens else (g, sets) :: s.gens })
       | none => .error "bad obs"
+    | "ser" =>
+      match field args "fmt", (field args "H").bind nats? with
+      | some fmt, some H =>
+        let q := (field args "q").bind QueryJudge.parseShape
+        let rt := (rhs.trimAscii.toString.splitOn " ").filter (· ≠ "")
+        let want := SerdeJudge.specSer s fmt H q
+        match (field rt "tree").bind SerdeJudge.parseT with
+        | some t =>
+          if SerdeJudge.canonOf fmt t != want then
+            .error s!"serialised form differs from the abstract map restricted to the handled types: spec={want}"
+          else if field rt "honest" != some "1" then .error "an announced length differs from the number of elements written"
+          else .ok ss
+        | none => .error "unparsable serialised form"
+      | _, _ => .error "bad ser line"
+    | "de" =>
+      match field args "fmt", (field args "H").bind nats?, (field args "tree").bind SerdeJudge.parseT with
+      | some fmt, some H, some t =>
+        let r := rhs.trimAscii.toString
+        if r == "panic" then .error "the deserialiser panicked instead of returning an error"
+        else if r == "ok" then
+          -- the world it produced, at the level of the abstract map
+          let s' : Option Spec.SpecW :=
+            if fmt == "row" then
+              match t with
+              | .map kvs => match SerdeJudge.specDeRow H kvs {} with
+                | .ok s' => some s'
+                | .error _ => none
+              | _ => none
+            else match t with
+              | .seq blocks => some (SerdeJudge.specDeCol blocks {})
+              | _ => none
+          match s' with
+          | some s' => .ok (setS ss n { s' with issued := s'.live.map (·.1), targeted := s'.live.map (·.1.id) })
+          | none => .error "input that is not a valid serialisation was accepted"
+        else .ok ss
+      | _, _, _ => .error "bad de line"
+    | "roundtrip" =>
+      -- C14: deserialising the serialised form gives the same handles with the same handled components
+      match args.head?, (field args "H").bind nats? with
+      | some n2, some H =>
+        let a := sortBy (fun x y => entLt x.1 y.1) (s.live.map (fun p => (p.1, sortComps (p.2.filter (fun c => H.contains c.1)))))
+        let b := sortBy (fun x y => entLt x.1 y.1) ((getS ss n2).live.map (fun p => (p.1, sortComps p.2)))
+        if a == b then .ok ss else .error "round trip changed handles or handled component values"
+      | _, _ => .error "bad roundtrip line"
     | "tobs" =>
       match (field args "hs").bind entities? with
       | some hs =>
@@ -383,6 +428,18 @@ end Hecs.WorldJudge
 namespace Hecs.WorldJudge
 open Hecs Hecs.Proto
 
+/-- bring the implementation's answer into the canonical form the model is rendered in -/
+def normRhs (lhs rhs : String) : String :=
+  let toks := (lhs.trimAscii.toString.splitOn " ").filter (· ≠ "")
+  match toks with
+  | "ser" :: _ :: args =>
+    let rt := (rhs.trimAscii.toString.splitOn " ").filter (· ≠ "")
+    match field args "fmt", (field rt "tree").bind SerdeJudge.parseT with
+    | some fmt, some t => s!"tree={SerdeJudge.canonOf fmt t} honest={(field rt "honest").getD "?"}"
+    | _, _ => rhs
+  | "de_bytes" :: _ => "impl-only"
+  | _ => rhs
+
 /-- returns the new state and the model's rendering of the right-hand side, or an error -/
 def stepLine (m : MState) (lhs : String) : Except String (MState × String) :=
   let toks := (lhs.trimAscii.toString.splitOn " ").filter (· ≠ "")
@@ -390,6 +447,25 @@ def stepLine (m : MState) (lhs : String) : Except String (MState × String) :=
   | ["world", n] =>
     .ok ({ m with worlds := setW m.worlds n World.new,
                   wids := (n, m.nextWid) :: m.wids.filter (·.1 != n), nextWid := m.nextWid + 1 }, "ok")
+  | "ser" :: n :: args =>
+    match getW m.worlds n, field args "fmt", (field args "H").bind nats? with
+    | some w, some fmt, some H =>
+      let q := (field args "q").bind QueryJudge.parseShape
+      let t := if fmt == "row" then Serde.serRow w H q else Serde.serCol w H q
+      .ok (m, s!"tree={SerdeJudge.canonOf fmt t} honest=1")
+    | _, _, _ => .error s!"bad ser line: {lhs}"
+  | "de" :: n :: args =>
+    match field args "fmt", (field args "H").bind nats?, (field args "tree").bind SerdeJudge.parseT with
+    | some fmt, some H, some t =>
+      match (if fmt == "row" then Serde.deRow H t else Serde.deCol H t) with
+      | .ok w =>
+        let m' : MState := { m with worlds := setW m.worlds n w, wids := (n, m.nextWid) :: m.wids.filter (·.1 != n),
+                                    nextWid := m.nextWid + 1 }
+        .ok (m', "ok")
+      | .error _ => .ok (m, "err")
+    | _, _, _ => .error s!"bad de line: {lhs}"
+  | "roundtrip" :: _ => .ok (m, "ok")
+  | "de_bytes" :: _ => .ok (m, "impl-only")
   | "query" :: n :: args =>
     match getW m.worlds n, (field args "q").bind QueryJudge.parseShape, field args "path",
           (field args "k").bind String.toNat? with
